@@ -190,8 +190,10 @@ fn to_deltas(code_map: &CodeMap, semtoks: Vec<SemTok>) -> Vec<SemanticToken> {
         .iter()
         .sorted_by_key(|(location, _)| (location.begin.line, location.begin.column))
     {
-        let cur_line = location.begin.line;
-        let cur_start = location.begin.column;
+        // (the protocol counts in UTF-16 code units)
+        let range = crate::lsp::to_range(location.clone());
+        let cur_line = range.start.line as usize;
+        let cur_start = range.start.character as usize;
         let delta_line = cur_line - prev_line;
         let delta_start = if cur_line == prev_line {
             cur_start - prev_start
@@ -203,7 +205,7 @@ fn to_deltas(code_map: &CodeMap, semtoks: Vec<SemTok>) -> Vec<SemanticToken> {
         result.push(SemanticToken {
             delta_line: delta_line as u32,
             delta_start: delta_start as u32,
-            length: (location.end.column - location.begin.column) as u32,
+            length: range.end.character - range.start.character,
             token_type: *TOKEN_TYPE_LOOKUP.get().unwrap().get(ty).unwrap(),
             token_modifiers_bitset: *TOKEN_MODIFIER_LOOKUP.get().unwrap().get(ty).unwrap(),
         });
